@@ -65,6 +65,11 @@ def gen(rng, tier):
     # the concurrent terminations of this one start; it completes after them
     # (two DIFFERENT clients racing inside the manager is not this property)
     cfg['by_leaving'] = cfg['bystander'] and rng.random() < 0.5
+    # ... or it is disconnected BY this client's disconnect handler ("the
+    # host leaves, kick the guest"): a nested termination of another client
+    # inside the handler, which then takes a while
+    cfg['handler_kicks'] = cfg['bystander'] and not cfg['by_leaving'] \
+        and rng.random() < 0.5
     return {'cfg': cfg, 'actions': actions}
 
 
@@ -121,10 +126,21 @@ def _run(case, cfg, w):
     k = w.kernel
     srv = w.add_server('s', async_handlers=True)
 
+    kicked = []
+
     def plan(label, args, ev):
         if label[3] == 'disconnect' and args and \
                 args[0] in by_sids.values():
-            return [('pause', 0.05), ('ret', None)]
+            return [('pause', 0.05 if cfg.get('by_leaving') else 0.0),
+                    ('ret', None)]
+        if label[3] == 'disconnect' and cfg.get('handler_kicks') and \
+                label[2] == '/' and not kicked and '/' in by_sids:
+            kicked.append(1)
+            by_ended.add('/')
+            w.rec.count('app.disconnect_from_disconnect_handler')
+            return [('do', lambda: srv.disconnect(by_sids['/'],
+                                                  namespace='/')),
+                    ('pause', 0.002), ('ret', None)]
         if label[3] == 'disconnect' and cfg['handler_pause']:
             return [('pause', 0.001), ('ret', None)]
         return [('ret', None)]
